@@ -19,7 +19,16 @@ type c04env struct {
 	back []byte // big backing array for canary checks
 	// decoded values handed out earlier: they must still be what they were after later decodes (of any type) and after
 	// the caller has reused its payload buffer
-	kept []c04kept
+	kept     []c04kept
+	nDecodes int
+	scr      *vh.RNG
+}
+
+func (e *c04env) scribble() *vh.RNG {
+	if e.scr == nil {
+		e.scr = vh.Sub(vh.Seed(), "c04-scribble")
+	}
+	return e.scr
 }
 
 type c04kept struct {
@@ -125,6 +134,12 @@ func (e *c04env) checkDecode(mi *msgInfo, payload []byte, v2 bool, what string) 
 			e.rep.Violation(fmt.Sprintf("msg=%s ver=%d what=%s", mi.Name, verOf(v2), what),
 				"decoded value differs from the reference decoder in field "+diff,
 				map[string]interface{}{"case": wit(), "got": fmt.Sprintf("%+v", got), "want": fmt.Sprintf("%+v", want.Interface())})
+			return
+		}
+		e.nDecodes++
+		if e.nDecodes%2 == 0 {
+			// the application owns what it was handed: it changes it; later decodes are not affected by that
+			vh.FillMessage(e.scribble(), mi.Layout, reflect.ValueOf(got), vh.ModeMixed)
 			return
 		}
 		e.keep(mi, got, want, v2)
@@ -346,6 +361,41 @@ func TestC04(t *testing.T) {
 			}
 			wg.Wait()
 			rep.Count("concurrent_decode_types", 1)
+			// payloads that are neighbours in one backing array, each decoded by its own goroutine: a decoder must not even
+			// temporarily use the bytes behind its payload (they are somebody else's payload)
+			{
+				const slots = 4
+				L := 1 + r.Intn(mi.Layout.SizeExt/2+1) // short payloads: room for "extension" into the neighbour
+				backing := make([]byte, slots*L+mi.Layout.SizeExt)
+				var wg2 sync.WaitGroup
+				for g := 0; g < slots; g++ {
+					wg2.Add(1)
+					gr := r.Fork()
+					p := backing[g*L : (g+1)*L : len(backing)] // capacity reaches over the neighbours
+					go func(g int) {
+						defer wg2.Done()
+						for i := 0; i < vh.Pick(300, 3000); i++ {
+							for j := range p {
+								p[j] = byte(1 + gr.Intn(255)) // own bytes only, non-zero
+							}
+							mine := append([]byte(nil), p...)
+							got, err := mi.RW.Read(&message.MessageRaw{ID: mi.Msg.GetID(), Payload: p}, true)
+							want, _ := mi.Layout.Decode(mine, true)
+							rep.Eval(1)
+							if err != nil {
+								continue
+							}
+							if eq, diff := mi.Layout.BitEqual(reflect.ValueOf(got), want); !eq {
+								rep.Violation(fmt.Sprintf("msg=%s ver=2 what=alias", mi.Name),
+									"payloads lying next to each other in one buffer, decoded at the same time by different goroutines: a decode saw its neighbour's bytes disturbed (field "+diff+")", vh.Hex(mine))
+								return
+							}
+						}
+					}(g)
+				}
+				wg2.Wait()
+				rep.Count("adjacent_payload_decode_types", 1)
+			}
 		}
 	}
 	env.recheck()
